@@ -220,6 +220,21 @@ func newPSConfig(n, tail int, pattern string) *psConfig {
 		p.Proof.LeafHash[31] ^= 0x80
 		c.add(fmt.Sprintf("leafhash-bitflip(%d)", i), "proof-leafhash-tampered", false, p)
 	}
+	// relabellings that keep the Merkle path valid: in an unbalanced tree leaf j sits where index i of a
+	// smaller tree would (found with the reference tree of relabel.go); index, proof index and proof total
+	// all changed, bytes / leaf hash / aunts genuine
+	{
+		var proofs []merkle.SimpleProof
+		for i := 0; i < n; i++ {
+			proofs = append(proofs, S[i].Proof)
+		}
+		for _, x := range pathCompatibleRelabellings(c.orig, proofs) {
+			j, i, t := x[0], x[1], x[2]
+			p := mk(uint32(i), S[j].Bytes, S[j].Proof)
+			p.Proof.Index, p.Proof.Total = uint64(i), uint64(t)
+			c.add(fmt.Sprintf("relabel-path-compatible(%d->%d,total=%d)", j, i, t), "genuine-relabelled-to-a-position-with-the-same-path", false, p)
+		}
+	}
 	if n >= 2 {
 		// second-preimage attempt: the two children of the root offered as the bytes of a one-leaf tree
 		k := splitPoint(n)
